@@ -4,7 +4,7 @@ import json, os, re, sys, ast
 ROOT = os.path.dirname(os.path.dirname(os.path.abspath(__file__)))
 n = 0
 for line in open(sys.argv[1]):
-    m = re.match(r'^(C\d\d[a-z]) on=(\S+) (\{.*?\}) :: (.*)$', line.strip())
+    m = re.match(r'^(C\d\d[A-Za-z]) on=(\S+) (\{.*?\}) :: (.*)$', line.strip())
     if not m:
         continue
     seed, on, rcs, mech = m.group(1), m.group(2), ast.literal_eval(m.group(3)), m.group(4)
